@@ -701,13 +701,19 @@ def post_handshake_work(arg):
 def scenario(params, ch):
     n_clients, cross, order, latency = params
     mon = HandshakeMonitor()
+    # "slow": an honest link whose round trip (2 x latency) is longer than the client's connect timeout (2 s) while the
+    # server keeps half-open connections for longer (8 s): the server hello is answered late, everything else is ordinary
+    slow = cross == "slow"
+    if slow:
+        cross = None
     w = World(n_clients=n_clients, root_index=ROOT, key_offset=KOFF, order=order, latency=latency, chooser=ch, monitors=[mon],
-              fates=[] if cross == "reconnect" else ["drop", "dup", "delay2", "delay8", "dupdelay2", "dupdelay6"])
+              server_cfg=({"setTempConnectionTimeout": 8.0} if slow else None),
+              fates=[] if cross == "reconnect" else ["drop", "dup"] if slow else ["drop", "dup", "delay2", "delay8", "dupdelay2", "dupdelay6"])
     try:
         # the hellos emitted inside World() were emitted before fates could be asked? no: fates are set in the constructor
         pinned = w.root_key.getPublicKey()
         swapped = [False]
-        for t in range(40):
+        for t in range(40 if not slow else 4 * latency + 60):
             w.tick()
             if cross and not swapped[0]:
                 hs = handshake_datagrams(w)
@@ -724,7 +730,7 @@ def scenario(params, ch):
                     a.data, b.data = b.data, a.data
                     swapped[0] = True
             mon.check_clients(w, pinned)
-            if t == 12:
+            if t == (12 if not slow else 3 * latency + 10):
                 w.fates = []
         if cross == "reconnect":
             # second session on the SAME UdpClient object: graceful disconnect, then connect() again under faults
@@ -815,6 +821,7 @@ def run(tier, seed):
     plist = [(1, None, o, l) for o, l in (("cs", 1), ("sc", 0), ("cs", 0), ("sc", 1))]
     plist += [(2, None, "cs", 1), (2, "SH", "cs", 1), (2, "CR", "cs", 1), (2, "CR-data", "cs", 1)]
     plist += [(1, "reconnect", "cs", 1), (1, "reconnect", "sc", 0)]
+    plist += [(1, "slow", "cs", 70), (1, "slow", "cs", 100)] + ([(1, "slow", "sc", 66), (2, "slow", "cs", 80)] if tier == "thorough" else [])
     if tier == "thorough":
         plist += [(2, None, "sc", 0), (2, "SH", "sc", 0), (2, "CR", "sc", 0), (2, "CR-data", "sc", 0), (3, None, "cs", 1)]
     st = explore.explore_all("checks.c02", "scenario", plist, 2 if tier == "quick" else 3, time_budget=(900 if tier == "quick" else 3000))
